@@ -39,8 +39,7 @@ TRUSTED_BASE = [
     "their extern maps / pinned statement texts",
     "Spec/NpDot.v as a description of np.matmul / np.dot (1-d) / np.tensordot on dense arrays, cross-checked against NumPy "
     "on every generated 2-d case (verdict code 22)",
-    "csr_den (Model/Dot.v) as the dense meaning of a CSR triple; its agreement with the shared gden/todense of "
-    "Model/GCXS.v is checked on every kernel case (judge code 4), not proved",
+    "csr_den (Model/Dot.v) is proved equal to the shared gden of Model/GCXS.v on well-formed CSR triples (csr_den_gden)",
     "tensordot_den is about the axis bookkeeping on the dense meaning of the operands: den-correctness of COO/GCXS "
     "transpose and reshape is C08's subject",
     "correspondence harness tools/props/c04.py, tools/vlib.py; scipy.sparse operands are converted by "
@@ -50,16 +49,18 @@ ASSUMPTIONS = [
     "element values form a commutative semiring in spgemm_den / spgemm_csc_den (hypothesis comm_semiring, instantiated at "
     "Z in the Examples and in the judge); float rounding, dtype promotion and overflow of narrow integers are not modelled "
     "(result dtypes: differential only, compared in Python)",
-    "multi-operand einsum, _einsum_single, _parse_einsum_input, kron, outer, vecdot, matmul batch recursion, the four "
-    "ndarray kernels' values and GCXS._prune: correspondence only (against NumPy / the Spec), no theorem",
+    "multi-operand einsum, _parse_einsum_input, kron, outer, vecdot, matmul batch recursion: correspondence only "
+    "(against NumPy), no theorem",
 ]
 UNPROVED = [
-    "einsum_single_den (DESIGN MVP): not modelled; einsum is differential only",
-    "value theorems of _dot_csr_ndarray(_sparse), _dot_csc_ndarray (dense), _dot_coo_ndarray_sparse, "
-    "_dot_ndarray_coo(_sparse) (DESIGN extension): only _dot_coo_ndarray and _dot_csc_ndarray_sparse are proved; the others "
-    "by correspondence with the Spec inside Coq",
-    "prune_den (GCXS(..., prune=True) keeps the dense meaning) and csr_den = gden bridge: correspondence only",
-    "matmul batch broadcasting, kron_den, multi-operand einsum (DESIGN extension)",
+    "multi-operand einsum (align, broadcast-multiply, single einsum) and _parse_einsum_input (string parsing): differential "
+    "only; einsum_single_den covers the single-operand step on a canonical COO operand (the GCXS round trip through "
+    "from_coo and the '...' expansion are not modelled)",
+    "matmul batch recursion (_matmul_recurser, stack of the per-batch products) and batch broadcasting: differential only; "
+    "matmul_route_spec covers the strategy selection",
+    "kron_den, outer, vecdot (compositions of reshape / elementwise multiply / sum): differential only",
+    "COO constructor steps after the kernels (sorting for sorted=False, summation for has_duplicates=True) are C05's "
+    "subject; tensordot's sparse transposes/reshapes are C08's",
 ]
 
 CL_D20 = "D20_gcxs_zero_extent"
@@ -272,27 +273,31 @@ def impl_kernel(case):
             A = np.array(case["Ad"], dtype=dt1).reshape(m, n)
             B = np.array(case["Bd"], dtype=dt2).reshape(n, p)
             if k in ("csr_nd", "csr_nd_sparse"):
-                a = sparse.GCXS.from_numpy(A, compressed_axes=(0,))
+                ad, ai, ap = _csr_arrays(case["A"], dt1)
                 if k == "csr_nd":
-                    out["r"] = vlib.plain(C._dot_csr_ndarray_type(dt1, dt2)((m, p), a.data, a.indices, a.indptr, B))
+                    out["r"] = vlib.plain(C._dot_csr_ndarray_type(dt1, dt2)((m, p), ad, ai, ap, B))
                 else:
-                    d, i, ip = C._dot_csr_ndarray_type_sparse(dt1, dt2)((m, p), a.data, a.indices, a.indptr, B)
-                    out["r"] = vlib.plain(sparse.GCXS((d, i, ip), shape=(m, p), compressed_axes=(0,)))
+                    d, i, ip = C._dot_csr_ndarray_type_sparse(dt1, dt2)((m, p), ad, ai, ap, B)
+                    out["r"] = {"k": "gcxs", "shape": [m, p], "caxes": [0], "data": [vlib.val_token(v) for v in d],
+                                "indices": [int(v) for v in i], "indptr": [int(v) for v in ip], "fill": 0, "dtype": str(d.dtype)}
             elif k in ("csc_nd", "csc_nd_sparse"):
-                a = sparse.GCXS.from_numpy(A, compressed_axes=(1,))
+                ad, ai, ap = _csr_arrays(case["Ac"], dt1)
                 if k == "csc_nd":
-                    out["r"] = vlib.plain(C._dot_csc_ndarray_type(dt1, dt2)((m, n), (n, p), a.data, a.indices, a.indptr, B))
+                    out["r"] = vlib.plain(C._dot_csc_ndarray_type(dt1, dt2)((m, n), (n, p), ad, ai, ap, B))
                 else:
-                    d, i, ip = C._dot_csc_ndarray_type_sparse(dt1, dt2)((m, n), (n, p), a.data, a.indices, a.indptr, B)
-                    out["r"] = vlib.plain(sparse.GCXS((d, i, ip), shape=(m, p), compressed_axes=(1,)))
+                    d, i, ip = C._dot_csc_ndarray_type_sparse(dt1, dt2)((m, n), (n, p), ad, ai, ap, B)
+                    out["r"] = {"k": "gcxs", "shape": [m, p], "caxes": [1], "data": [vlib.val_token(v) for v in d],
+                                "indices": [int(v) for v in i], "indptr": [int(v) for v in ip], "fill": 0, "dtype": str(d.dtype)}
             elif k in ("nd_coo", "nd_coo_sparse"):
-                b = sparse.COO.from_numpy(B)
-                if k == "nd_coo":
-                    out["r"] = vlib.plain(C._dot_ndarray_coo_type(dt1, dt2)(A, b.coords, b.data, (m, p)))
-                else:
-                    bt = b.T
-                    cc, dd = C._dot_ndarray_coo_type_sparse(dt1, dt2)(A, bt.coords, bt.data, (m, p))
-                    out["r"] = vlib.plain(sparse.COO(cc, dd, shape=(m, p), has_duplicates=False, sorted=True, prune=True))
+                cells = case["cells"]
+                co = np.array([[c[0] for c in cells], [c[1] for c in cells]], dtype=np.intp).reshape(2, len(cells))
+                d2 = np.array([c[2] for c in cells], dtype=dt2)
+                if k == "nd_coo":        # coords2 = b.coords
+                    out["r"] = vlib.plain(C._dot_ndarray_coo_type(dt1, dt2)(A, co, d2, (m, p)))
+                else:                    # coords2 = b.T.coords
+                    cc, dd = C._dot_ndarray_coo_type_sparse(dt1, dt2)(A, co, d2, (m, p))
+                    out["r"] = {"k": "coo", "shape": [m, p], "coords": [[int(cc[0, t]), int(cc[1, t])] for t in range(cc.shape[1])],
+                                "data": [vlib.val_token(v) for v in dd], "fill": 0, "dtype": str(dd.dtype)}
             else:
                 raise ValueError(k)
     except Exception as ex:  # noqa: BLE001
@@ -432,17 +437,24 @@ def kernel_cases(tier, rng, budget=1):
                     rows.append(i), cols.append(j), data.append(A[i][j])
         cases.append({"k": "coo_nd", "m": m, "n": n, "p": p, "dt": ["int64", "int64"], "rows": rows, "cols": cols,
                       "data": data, "Bd": [v for r in B for v in r], "Ad": [v for r in A for v in r]})
-    # the other kernels: Spec only (extents >= 1: zero extents of these are exercised at API level under the watchdog)
-    n_sp = 120 if tier == "quick" else 1200
+    # the other kernels: exact model output and the Spec
+    n_sp = 140 if tier == "quick" else 1400
     others = ["csr_nd", "csr_nd_sparse", "csc_nd", "csc_nd_sparse", "nd_coo", "nd_coo_sparse", "coo_nd_sparse"]
     for t in range(n_sp):
         k = others[t % len(others)]
-        m, n, p = rng.choice(ext[1:]), rng.choice(ext[1:]), rng.choice(ext[1:])
+        e2 = ext if t % 3 == 0 else ext[1:]
+        m, n, p = rng.choice(e2), rng.choice(e2), rng.choice(e2)
         A, B = (cancelling_pair(rng, m, n, p) if t % 4 == 0 else (rand_matrix(rng, m, n), rand_matrix(rng, n, p)))
         c = {"k": k, "m": m, "n": n, "p": p, "dt": ["int64", "int64"], "Ad": [v for r in A for v in r], "Bd": [v for r in B for v in r]}
-        if k == "csc_nd_sparse":
+        if k in ("csr_nd", "csr_nd_sparse"):
+            c["A"] = csr_of(A, n)
+        if k in ("csc_nd", "csc_nd_sparse"):
             At = [[A[i][j] for i in range(m)] for j in range(n)]
             c["Ac"] = csr_of(At, m)
+        if k == "nd_coo":           # cells of b in row-major order
+            c["cells"] = [[i, j, B[i][j]] for i in range(n) for j in range(p) if B[i][j]]
+        if k == "nd_coo_sparse":    # cells of b.T: (column of b, row of b), sorted
+            c["cells"] = [[j, i, B[i][j]] for j in range(p) for i in range(n) if B[i][j]]
         if k == "coo_nd_sparse":
             rows, cols, data = [], [], []
             for i in range(m):
@@ -692,6 +704,20 @@ def kernel_lit(case, r):
                f"{dense_lit_flat([p, n], a2)} {vZ(m)} {vZ(p)})")
     elif k == "csc_nd_sparse":
         inp = f"(KinCscNdSparse {vZ(m)} {vZ(n)} {vZ(p)} {csr_lit(case['Ac'])} {dense_lit_flat([n, p], case['Bd'])})"
+    elif k in ("csr_nd", "csr_nd_sparse"):
+        inp = (f"(KinCsrNd {'true' if k.endswith('sparse') else 'false'} {vZ(m)} {vZ(p)} {csr_lit(case['A'])} "
+               f"{dense_lit_flat([n, p], case['Bd'])})")
+    elif k == "csc_nd":
+        inp = f"(KinCscNd {vZ(m)} {vZ(n)} {vZ(p)} {csr_lit(case['Ac'])} {dense_lit_flat([n, p], case['Bd'])})"
+    elif k in ("nd_coo", "nd_coo_sparse"):
+        cells = case["cells"]
+        inp = (f"({'KinNdCooSp' if k.endswith('sparse') else 'KinNdCoo'} {vZ(m)} {vZ(n)} {vZ(p)} {dense_lit_flat([m, n], case['Ad'])} "
+               f"{vlist([c[0] for c in cells])} {vlist([c[1] for c in cells])} {vlist([c[2] for c in cells])})")
+    elif k == "coo_nd_sparse":
+        Bd = case["Bd"]
+        a2 = [Bd[j * p + c] for c in range(p) for j in range(n)]
+        inp = (f"(KinCooNdSp {vlist(case['rows'])} {vlist(case['cols'])} {vlist(case['data'])} "
+               f"{dense_lit_flat([p, n], a2)} {vZ(m)} {vZ(p)})")
     else:
         inp = f"(KinSpec {dense_lit_flat([m, n], case['Ad'])} {dense_lit_flat([n, p], case['Bd'])})"
     return vpair(inp, impl)
@@ -904,6 +930,26 @@ def campaign(build, tier, seed, report, budget=1):
     abad = build.judge("c04_api", "From Verif Require Import Py Shape COO GCXS NpDot Dot SArr C04Judge.", "acase", "judge_api", alits,
                        chunk=150, timeout=600)
     cov["wall_api_judge_s"] = round(time.time() - t2, 1)
+    # einsum with one operand: the Spec (np_einsum1) evaluated in Coq against NumPy and the implementation
+    elits, eown = [], []
+    for i, (c, r) in enumerate(zip(ac, ares, strict=True)):
+        if c["op"] == "einsum" and c["b"] is None and "." not in c["sub"] and "->" in c["sub"] and "r" in r:
+            lhs, rhs = c["sub"].split("->")
+            elits.append(vpair(vlist([ord(ch) for ch in lhs]), vlist([ord(ch) for ch in rhs]),
+                               dense_lit_flat(c["a"]["shape"], spec_flat(c["a"])), vlib.sarr_lit(r["np"]), vlib.sarr_lit(r["r"])))
+            eown.append(i)
+            tag("api/einsum1_spec_in_coq")
+    ebad = build.judge("c04_einsum1", "From Verif Require Import Py Shape COO GCXS NpDot Dot SArr C04Judge.", "ecase",
+                       "judge_einsum1", elits, chunk=60, timeout=600) if elits else []
+    for j, code in ebad:
+        c, r = ac[eown[j]], ares[eown[j]]
+        tag("verdict/einsum1/" + str(code))
+        viol.append({"property": "C04", "op": "einsum", "kind": "representation" if code == 22 else "value", "clause": None,
+                     "code": code, "what": {22: "Spec np_einsum1 (evaluated in Coq) differs from np.einsum",
+                                            20: "sparse.einsum differs from np.einsum / the Spec", 10: "hang",
+                                            12: "exception"}.get(code, str(code)),
+                     "case": {k: c[k] for k in ("op", "a", "ka", "b", "kb", "rt", "axes", "sub", "axis", "dta", "dtb")},
+                     "impl": r.get("r"), "numpy": r.get("np"), "replay_py": replay_api(c)})
     bad_main = {}
     unpruned = []
     for j, code in abad:
